@@ -241,13 +241,16 @@ func genCase(t *rapid.T, prefix string) *caseSpec {
 	k := rapid.IntRange(2, 12).Draw(t, "ops")
 	for i := 0; i < k; i++ {
 		o := op{Task: rapid.IntRange(0, n-1).Draw(t, "optask")}
-		o.Do = rapid.SampledFrom([]string{"queue", "queue", "prioritize", "asap", "schedule", "schedule", "cancel", "sleep", "sleep"}).Draw(t, "do")
+		o.Do = rapid.SampledFrom([]string{"queue", "queue", "prioritize", "asap", "schedule", "schedule", "cancel", "sleep", "sleep", "maxdelay"}).Draw(t, "do")
 		switch o.Do {
 		case "schedule":
 			// mostly soon; now and then far in the future (a later, earlier re-schedule must still be honoured)
 			o.MS = rapid.SampledFrom([]int{5, 10, 25, 40, 5, 10, 25, 40, 3600 * 1000}).Draw(t, "in")
 		case "sleep":
 			o.MS = rapid.SampledFrom([]int{1, 4, 10, 30}).Draw(t, "sleep")
+		case "maxdelay":
+			// a new maximum delay for later queueings; what is waiting (a scheduled time, say) is not touched by it
+			o.MS = rapid.SampledFrom([]int{20, 3600 * 1000}).Draw(t, "newmaxdelay")
 		}
 		c.Ops = append(c.Ops, o)
 	}
@@ -385,6 +388,9 @@ func (c *caseSpec) execOps(rs *runState) {
 			r.rec("submit:schedule", name, fmt.Sprintf("at=%d +%dms", at.UnixNano(), o.MS))
 			t.Schedule(at)
 			r.rec("schedule-return", name, "")
+		case "maxdelay":
+			r.rec("maxdelay", name, fmt.Sprintf("%dms", o.MS))
+			t.MaxDelay(time.Duration(o.MS) * time.Millisecond)
 		case "queue", "prioritize", "asap":
 			rs.onlySched[o.Task].Store(false)
 			r.apply(t, name, o.Do, "outside")
